@@ -27,11 +27,7 @@ ASSUMPTIONS = ["supplier code letters are ASCII (rune(trimmedString[0]) is a byt
                "import cases (json.Unmarshal vs importJ) have no duplicate keys, no key equal to a field's key up to case, no null in place of an "
                "enzyme object or inside a string list (Go's rules for those are not part of importJ)",
                "every record of a listing has all eight lines <1>..<8> (format 31); the text is LF-terminated"]
-PARTIAL = ["KNOWN FINDING C16-empty-isoschizomers (provisional): 'holding the record's isoschizomer list … exactly as written' — for an empty <2> "
-           "line the written list is empty, rebase.Parse returns the one-element list [\"\"] (strings.Split(\"\", \",\")), exported as [\"\"] "
-           "next to null for an equally empty <7>. parse_listing_read proves the exact result (readMap) for every listing, "
-           "parse_listing_partial the clause as worded (expectedMap) for listings without an empty <2>; empty_isoschizomers_witness is the "
-           "kernel-checked counterexample. The judge demands expectedMap and tags a failure that is exactly this quirk kf:","NARROWING of 'arbitrary header prose' and of free field text: parse_listing is proved, and cases are judged, for prose, supplier lines "
+PARTIAL = ["NARROWING of 'arbitrary header prose' and of free field text: parse_listing is proved, and cases are judged, for prose, supplier lines "
            "and further-reference lines WITHOUT any record tag <1>..<8> (noTags) and for field values without an EARLIER tag (dispatches k: "
            "no <j>, j < k, in the line of field k). rebase.Parse dispatches on strings.Contains in the order 1..8, so such text is filed "
            "under another field (a prose line 'see <8> below' stores a bogus entry; '<8>ref ... <2>' loses the record). A LATER tag inside "
@@ -234,11 +230,10 @@ def cases(seed, tier):
 TECHNIQUE = ("Lean 4 proof over an executable model of rebase.Parse (the supplier-table state machine and the tag dispatch, statement by "
              "statement, slice panics explicit) and of Export at the level of JSON values driven by the struct tags regenerated with "
              "reflect; independent format-31 writer as spec; differential correspondence incl. the distributed sample file")
-LEVEL_TEXT = ("parse_listing_read / parse_listing_partial: for every supplier table, record list and layout satisfying the decidable predicate wfListing (any number of "
+LEVEL_TEXT = ("parse_listing: for every supplier table, record list and layout satisfying the decidable predicate wfListing (any number of "
               "records and suppliers, any prose, indentation by blanks and/or tabs, any number of blank lines) Parse(listing …) returns "
-              "exactly readMap — one entry per record keyed by its name, the fields as written, every supplier letter decoded through the "
-              "listing's own table, [\"\"] for an empty <2> — which is expectedMap when no record has an empty <2> (parse_listing_entries for "
-              "distinct names). export_roundtrip: importJ (exportJ m) is m in "
+              "exactly expectedMap — one entry per record keyed by its name, the eight fields as written (no isoschizomers for an empty <2>, "
+              "since fix a3fb5a0), every supplier letter decoded through the listing's own table (parse_listing_entries for distinct names). export_roundtrip: importJ (exportJ m) is m in "
               "sorted key order, for every map with distinct keys (parse_export_roundtrip for the map Parse returns). tags_shape / "
               "tags_nodup are decided on the regenerated struct-tag table. The distributed sample is shown on every run to be "
               "`listing sups recs ℓ` for the content the recogniser extracts (checked by re-rendering), hence inside the theorem's domain.")
